@@ -39,6 +39,16 @@ INT_MAYBE_RE = z3.Concat(z3.Star(_ws), z3.Option(z3.Union(z3.Re("+"), z3.Re("-")
                          z3.Plus(z3.Union(z3.Range("0", "9"), z3.Re("_"))), z3.Star(_ws))
 
 
+class ListSet(object):
+    """small set that may hold symbolic scalars: list of elements that are pairwise distinct ON THIS PATH"""
+
+    def __init__(self, items=()):
+        self.items = list(items)
+
+    def __len__(self):
+        return len(self.items)
+
+
 class Spread(object):
     """marker element of a concrete list: the elements of a symbolic sequence, spliced in"""
 
@@ -99,17 +109,32 @@ class Models(object):
         return bool(v)
 
     def make_set(self, items):
+        items = [sym.concrete(x) for x in items]
+        if any(isinstance(x, SV) for x in items):
+            ls = ListSet()
+            for x in items:
+                self.ls_add(ls, x)
+            return ls
         out = set()
         for x in items:
-            x = sym.concrete(x)
-            if isinstance(x, SV):
-                raise Unsupported("set with symbolic elements")
             out.add(x)
         return out
 
+    def ls_add(self, ls, x):
+        x = sym.concrete(x)
+        for e in ls.items:
+            if self.E.decide(sym.eq(x, e)):
+                return
+        ls.items.append(x)
+
+    def to_listset(self, s):
+        if isinstance(s, ListSet):
+            return ListSet(s.items)
+        return ListSet(sorted(s, key=repr))
+
     def set_order(self, s):
         """iteration order of a set is ARBITRARY: fork over the permutations (small concrete sets only)"""
-        items = sorted(s, key=repr)
+        items = list(s.items) if isinstance(s, ListSet) else sorted(s, key=repr)
         if len(items) <= 1:
             return items
         if len(items) > 3:
@@ -384,6 +409,9 @@ class Models(object):
         elif isinstance(o, (set, frozenset)):
             if hasattr(o, name):
                 return NativeMethod(o, name)
+        elif isinstance(o, ListSet):
+            if name in SET_METHODS:
+                return NativeMethod(o, name)
         elif isinstance(o, tuple):
             if hasattr(o, name) and not callable(getattr(o, name)):
                 return getattr(o, name)          # namedtuple fields
@@ -432,6 +460,12 @@ class Models(object):
                 if not (isinstance(r, str) or E.decide(sym.is_str(r))):
                     raise PyRaise(ExcVal(TypeError, ("can only concatenate str",)))
                 return sym.mk_str(z3.Concat(sym.sstr(l), sym.sstr(r)))
+        if isinstance(op, ast.BitOr) and (isinstance(l, ListSet) or isinstance(r, ListSet)) and \
+                isinstance(l, (set, frozenset, ListSet)) and isinstance(r, (set, frozenset, ListSet)):
+            out = self.to_listset(l)
+            for x in (r.items if isinstance(r, ListSet) else sorted(r, key=repr)):
+                self.ls_add(out, x)
+            return out
         if isinstance(op, ast.BitOr) and isinstance(l, (set, frozenset)) and isinstance(r, (set, frozenset)):
             return l | r
         if isinstance(op, ast.BitAnd) and isinstance(l, (set, frozenset)) and isinstance(r, (set, frozenset)):
@@ -627,8 +661,8 @@ class Models(object):
     def contains(self, c, x):
         E = self.E
         x = sym.concrete(x)
-        if isinstance(c, (list, tuple, set, frozenset)):
-            items = list(c)
+        if isinstance(c, (list, tuple, set, frozenset, ListSet)):
+            items = list(c.items) if isinstance(c, ListSet) else list(c)
             if sym.liftable(x) and all(sym.liftable(i) for i in items):
                 if not isinstance(x, SV) and all(not isinstance(i, SV) for i in items):
                     return any(x == i for i in items)
@@ -1177,6 +1211,17 @@ class Models(object):
             return self.seq_method(recv, name, args, kwargs)
         if isinstance(recv, (set, frozenset)):
             return self.set_method(recv, name, args, kwargs)
+        if isinstance(recv, ListSet):
+            if name == "add":
+                self.ls_add(recv, args[0])
+                return None
+            if name in ("update", "union"):
+                tgt = recv if name == "update" else ListSet(recv.items)
+                for a_ in args:
+                    for x in E.iterate(a_):
+                        self.ls_add(tgt, x)
+                return None if name == "update" else tgt
+            raise Unsupported("set.%s with symbolic elements" % name)
         if isinstance(recv, re.Pattern):
             if name == "match":
                 return self.re_match(recv, args[0])
@@ -1416,7 +1461,7 @@ class Models(object):
         t[callable] = self.b_callable
         t[dir] = self.b_dir
         t[len] = self.b_len
-        t[sorted] = lambda a, k: self.sorted_(self.E.iterate(a[0]), k.get("key"), k.get("reverse", False))
+        t[sorted] = self.b_sorted
         t[list] = self.b_list
         t[tuple] = lambda a, k: tuple(self.E.iterate(a[0])) if a else ()
         t[set] = lambda a, k: self.make_set(self.E.iterate(a[0])) if a else set()
@@ -1459,7 +1504,7 @@ class Models(object):
             return h(args, kwargs)
         if isinstance(f, type) and issubclass(f, BaseException):
             return ExcVal(f, tuple(args))
-        if isinstance(f, types.LambdaType) and getattr(f, "__module__", "") == "pyvc.engine":
+        if isinstance(f, types.FunctionType) and getattr(f, "__module__", "") == "pyvc.engine":
             return f(*args, **kwargs)
         if callable(f) and _all_concrete(args) and _all_concrete(list(kwargs.values())):
             if f in self.native_pure or getattr(f, "__module__", None) in ("posixpath", "os.path", "collections") \
@@ -1480,6 +1525,17 @@ class Models(object):
         raise Unsupported("call of %r" % (f,))
 
     call_hooks = {}
+
+    def b_sorted(self, a, k):
+        x = a[0]
+        # the result of sorting a set does not depend on its (arbitrary) iteration order: no need to fork over orders
+        if isinstance(x, ListSet):
+            items = list(x.items)
+        elif isinstance(x, (set, frozenset)):
+            items = sorted(x, key=repr)
+        else:
+            items = self.E.iterate(x)
+        return self.sorted_(items, k.get("key"), k.get("reverse", False))
 
     def b_list(self, a, k):
         if not a:
